@@ -243,6 +243,15 @@ def forced(mw=2, reusable=False, queued=3):
              ops)
 
 
+def forced_nowait_prompt(mw=2, queued=1):
+    """shutdown(wait=False, kill_workers=True) while every worker is busy for good and the
+    caller keeps its reference: nothing else will ever wake the manager, yet the futures must
+    fail and the workers be gone by the time everything has come to rest."""
+    ops = [NEW] + [sub(f"g{i}", "gate") for i in range(mw)] + [sub(f"q{i}", "ok", i) for i in range(queued)]
+    ops += [["expect_inside", mw], ["shutdown", False, True], ["settle"], ["expect_resolved"]]
+    return P(f"forced-nowait-prompt-w{mw}-q{queued}", pool(max_workers=mw), ops)
+
+
 def forced_then_graceful(mw=2, second_wait=True):
     """shutdown(wait=False, kill_workers=True), then a plain shutdown(wait=...) of the same
     executor: the forced request must not be downgraded by the later graceful call."""
